@@ -421,7 +421,9 @@ fn issue_crafted(w: &mut World, step: usize) {
     "nbf_and_iat",
     "vc_date_outside_range_after_offset",
     "iss_spelled_with_whitespace_or_uppercase_scheme",
-  ][ctx::choose(8)];
+    "vc_issuer_object_with_description",
+    "numeric_date_with_fraction",
+  ][ctx::choose(10)];
   let mut claims = serde_json::json!({
     "iss": p.did,
     "nbf": now_i - 100,
@@ -438,6 +440,22 @@ fn issue_crafted(w: &mut World, step: usize) {
     "vc_issuer_mismatch" => claims["vc"]["issuer"] = "did:sim:someoneelse".into(),
     "vc_issuance_mismatch" => claims["vc"]["issuanceDate"] = crate::core::time::rfc3339(now_i - 5000).into(),
     "exp_out_of_range" => claims["exp"] = Value::from(1_000_000_000_000_000i64),
+    "vc_issuer_object_with_description" => {
+      // the duplicate inside `vc` describes the issuer (object form); the registered claim is the bare id: the two
+      // are not the same value, and what the issuer signed about itself must not get lost silently
+      claims["vc"]["issuer"] = serde_json::json!({"id": p.did, "name": "Sim University", "accreditation": format!("rev-{step}")});
+    }
+    "numeric_date_with_fraction" => {
+      // NumericDates with a fractional part, within half a second of the instant the verifier is most likely to use
+      match ctx::choose(3) {
+        0 => claims["exp"] = serde_json::json!(now_i as f64 + [-0.5, 0.5, 1000.5][ctx::choose(3)]),
+        1 => claims["nbf"] = serde_json::json!(now_i as f64 + [0.4, -0.4, -100.25][ctx::choose(3)]),
+        _ => {
+          claims.as_object_mut().unwrap().remove("nbf");
+          claims["iat"] = serde_json::json!(now_i as f64 + 0.4);
+        }
+      }
+    }
     "iss_spelled_with_whitespace_or_uppercase_scheme" => {
       // not the issuer's DID (not a DID at all), although a URL parser that strips blanks, drops TAB / LF / CR and
       // lower-cases the scheme would turn it into one
@@ -602,7 +620,8 @@ fn present_crafted(w: &mut World, step: usize) {
     "kid_names_no_did_of_the_document",
     "issuance_time_not_an_integer",
     "iss_spelled_with_whitespace_or_uppercase_scheme",
-  ][ctx::choose(9)];
+    "holder_object_mismatch",
+  ][ctx::choose(10)];
   let now_h = w.clock.now + w.parties[h].skew;
   let mut claims = serde_json::json!({
     "iss": p.did,
@@ -611,6 +630,7 @@ fn present_crafted(w: &mut World, step: usize) {
   });
   match kind {
     "holder_mismatch" => claims["vp"]["holder"] = "did:sim:someoneelse".into(),
+    "holder_object_mismatch" => claims["vp"]["holder"] = serde_json::json!({"id": "did:sim:someoneelse", "name": "Somebody Else"}),
     "id_mismatch" => {
       claims["jti"] = "https://pres.example/a".into();
       claims["vp"]["id"] = "https://pres.example/b".into();
@@ -1554,7 +1574,13 @@ fn validate_presentation(w: &mut World, step: usize) {
               match (&p.payload, truth) {
                 (Some(c), Some(tp)) => {
                   let iss = c.get("iss").and_then(|i| i.as_str()).unwrap_or("");
-                  if tp.crafted == Some("issuance_time_not_an_integer") {
+                  if tp.crafted == Some("holder_object_mismatch") {
+                    // the duplicate is of another JSON type than the claim model has: refused when the claims are read,
+                    // i.e. before the issuer is compared with the supplied document
+                    want = Some(if iss != sup.did { "PresentationStructure|DocumentMismatch" } else { "PresentationStructure" });
+                    label = "structure";
+                    ctx::stat("false.p.structure");
+                  } else if tp.crafted == Some("issuance_time_not_an_integer") {
                     // the claims are ill-typed (refused when they are read) or denote a time in the future; the
                     // supplied document may be the wrong one on top: any of the false conditions may be named
                     want = Some(if iss != sup.did {
